@@ -76,6 +76,9 @@ def programs():
                 val(OPN[o] + "_T", "%s %s e.t_int" % (W, o), [("T", "int")])
                 val(OPN[o] + "_TV", "%s %s e.v_int" % (W, o), [("TV", "int")])
                 val(OPN[o] + "_self", "%s %s %s" % (W, o, W), [(op.kind, op.ty)])
+                # a hint (the result of an earlier comparison with sandbox memory) as the second operand
+                val(OPN[o] + "_bhint", "%s %s e.bh" % (W, o), [("BoolHint", "bool")])
+                val(OPN[o] + "_ihint", "%s %s e.ih" % (W, o), [("IntHint", "int")])
         val("eq_nullptr", "%s == nullptr" % W)
         val("ne_nullptr", "%s != nullptr" % W)
         val("nullptr_eq", "nullptr == %s" % W)
